@@ -432,28 +432,36 @@ Definition implicit_all (sch : schema) (nostate : bool) (f : forest) : res (fore
   level (dfuel sch) false nostate sch [] None f.
 
 (* ------------------------------------------------------------------------------------------- *)
-(* net effect of a change list (what lyd_diff_merge_all of the single changes leaves): per NODE - a deleted subtree is
-   the deletion of each of its nodes - a create and a delete of the same node (same path, value, default flag) cancel.
+(* net effect of a change list (what lyd_diff_merge_all of the single changes leaves), per NODE - a deleted subtree is
+   the deletion of each of its nodes:
+     delete then create of the same node: nothing is left for an inner node or an equal term with the same default
+       flag; an equal term with another default flag leaves a flag change (operation none + orig-default); a leaf with
+       another value leaves a replace;
+     create then delete of the same node: nothing is left.
    Used to compare with the diff tree libyang returns. *)
 (* ------------------------------------------------------------------------------------------- *)
+Inductive fop := FDel | FCre | FFlag | FRepl.
+
 Record fchange := mk_fchange {
-  fc_create : bool;
+  fc_op : fop;
   fc_path : list pstep;         (* ancestors and the node itself *)
   fc_val : bytes;
-  fc_dflt : bool
+  fc_dflt : bool;
+  fc_multi : bool;              (* leaf-list: the value is part of the identity *)
+  fc_term : bool
 }.
 
-Fixpoint flat_node (sch : schema) (create : bool) (path : list pstep) (n : dnode) {struct n} : list fchange :=
+Fixpoint flat_node (sch : schema) (op : fop) (path : list pstep) (n : dnode) {struct n} : list fchange :=
   match n with
   | DN s v d m ch =>
       let me := path ++ [step_of sch n] in
-      mk_fchange create me v d ::
+      mk_fchange op me v d (match kind_of sch s with KLeafList => true | _ => false end) (is_term sch s) ::
       (fix go (l : list dnode) : list fchange :=
-         match l with [] => [] | x :: l' => flat_node sch create me x ++ go l' end) ch
+         match l with [] => [] | x :: l' => flat_node sch op me x ++ go l' end) ch
   end.
 
 Definition flat_change (sch : schema) (c : change) : list fchange :=
-  if c_silent c then [] else flat_node sch (c_create c) (c_path c) (c_node c).
+  if c_silent c then [] else flat_node sch (if c_create c then FCre else FDel) (c_path c) (c_node c).
 
 Fixpoint pstep_eqb (a b : list pstep) : bool :=
   match a, b with
@@ -462,15 +470,25 @@ Fixpoint pstep_eqb (a b : list pstep) : bool :=
   | _, _ => false
   end.
 
-Definition cancels (a b : fchange) : bool :=
-  pstep_eqb (fc_path a) (fc_path b) && beq_bytes (fc_val a) (fc_val b) && Bool.eqb (fc_dflt a) (fc_dflt b) &&
-  negb (Bool.eqb (fc_create a) (fc_create b)).
+Definition same_target (a b : fchange) : bool :=
+  pstep_eqb (fc_path a) (fc_path b) && (negb (fc_multi a) || beq_bytes (fc_val a) (fc_val b)).
 
-(* add x to the net list acc: drop the first entry it cancels with *)
+(* add x to the net list acc: merge it with the first entry for the same node *)
 Fixpoint net_add (acc : list fchange) (x : fchange) : list fchange :=
   match acc with
   | [] => [x]
-  | y :: r => if cancels y x then r else y :: net_add r x
+  | y :: r =>
+      if same_target y x then
+        match fc_op y, fc_op x with
+        | FDel, FCre =>
+            if beq_bytes (fc_val y) (fc_val x) then
+              (if Bool.eqb (fc_dflt y) (fc_dflt x) || negb (fc_term x) then r
+               else mk_fchange FFlag (fc_path x) (fc_val x) (fc_dflt x) (fc_multi x) (fc_term x) :: r)
+            else mk_fchange FRepl (fc_path x) (fc_val x) (fc_dflt x) (fc_multi x) (fc_term x) :: r
+        | FCre, FDel => r
+        | _, _ => y :: net_add r x
+        end
+      else y :: net_add r x
   end.
 
 Definition net (sch : schema) (d : list change) : list fchange :=
@@ -574,8 +592,8 @@ Fixpoint at_path (sch : schema) (path : list pstep) (F : forest -> forest) (f : 
 
 (* the instance a recorded node stands for *)
 Definition same_node (sch : schema) (a b : dnode) : bool :=
-  (d_sid a =? d_sid b) &&
-  (if multi sch (d_sid a) then beq_bytes (d_val a) (d_val b) && beq_bytes_list (key_vals sch a) (key_vals sch b) else true).
+  (d_sid a =? d_sid b) && beq_bytes (d_val a) (d_val b) && Bool.eqb (d_dflt a) (d_dflt b) &&
+  beq_bytes_list (key_vals sch a) (key_vals sch b).
 
 Definition apply_change (sch : schema) (f : forest) (c : change) : forest :=
   if c_silent c then f
@@ -625,6 +643,14 @@ Definition chc_okb (sch : schema) : bool :=
     negb (ch_id x =? ch_id y) ||
     ((negb (ch_case x =? ch_case y) || (Bool.eqb (ch_dflt x) (ch_dflt y) && Bool.eqb (ch_mand x) (ch_mand y))) &&
      (negb (ch_dflt x && ch_dflt y) || (ch_case x =? ch_case y)))) (all_chcs sch)) (all_chcs sch).
+
+(* schema sanity used by the canonical-order theorem: schema ids are unique; key leaves have no default and are not
+   inside a choice (YANG: a key cannot be in a case, a default on a key is ignored) *)
+Fixpoint nodupb (l : list N) : bool :=
+  match l with [] => true | x :: r => negb (existsb (N.eqb x) r) && nodupb r end.
+Definition sids_uniqb (sch : schema) : bool := nodupb (map fst sch).
+Definition keys_plainb (sch : schema) : bool :=
+  forallb (fun e : sid * sinfo => forallb (fun k => negb (has_default sch k) && is_nil (chainf sch k)) (si_keys (snd e))) sch.
 
 (* input well-formedness the edit API maintains (lyd_np_cont_dflt_del / _set on insert, unlink, change): an NP container
    is default-flagged iff all its children are *)
